@@ -125,12 +125,6 @@ func (p *Program) supervision() *supRoles {
 	if s.Apply != nil {
 		for _, b := range s.Apply.Blocks {
 			for _, in := range b.Instrs {
-				if c := callOf(in); c != nil && c.StaticCallee() != nil && c.StaticCallee().Signature.Recv() != nil && namedOf(c.StaticCallee().Signature.Recv().Type()) == s.SupCtxT {
-					cal := c.StaticCallee()
-					if len(p.tellSites(cal)) > 0 {
-						s.Broadcast = cal
-					}
-				}
 				if st, ok := in.(*ssa.Store); ok {
 					if f, _ := fieldAddr(st.Addr); f != nil && fieldVar(s.SupCtxT, f.Name()) == f {
 						if _, isSl := f.Type().Underlying().(*types.Slice); isSl {
@@ -141,6 +135,28 @@ func (p *Program) supervision() *supRoles {
 						}
 					}
 				}
+			}
+		}
+	}
+	// the broadcast: the method of the supervision context that tells while walking the chain link (reads SubLink); it may be
+	// reached from apply-decision through a thin wrapper, and apply-decision may have other telling helpers
+	if s.SubLink != nil {
+		for _, fn := range p.methodsOf(s.SupCtxT) {
+			if fn.Parent() != nil || fn == s.Apply || len(p.tellSites(fn)) == 0 {
+				continue
+			}
+			reads := false
+			for _, b := range fn.Blocks {
+				for _, in := range b.Instrs {
+					if u, ok := in.(*ssa.UnOp); ok && u.Op == token.MUL {
+						if f, _ := fieldAddr(u.X); f == s.SubLink {
+							reads = true
+						}
+					}
+				}
+			}
+			if reads {
+				s.Broadcast = fn
 			}
 		}
 	}
@@ -191,7 +207,7 @@ func c08Consult(p *Program, r *Report) {
 	for n := range sup {
 		c := callOf(g.Nodes[n])
 		o := p.origins(c.Value)
-		own := anyContains(o, "SupervisionStrategy<-field:Context.options<-") || anyContains(o, ".SupervisionStrategy<-field:"+"Context.options")
+		own := anyContains(o, "SupervisionStrategy<-field:"+p.lifecycle().pat(p.lifecycle().OptionsF))
 		sys := anyContains(o, "System.options")
 		// the system strategy is chosen only on the own==nil edge
 		ph, isPhi := c.Value.(*ssa.Phi)
@@ -332,7 +348,7 @@ func c08Targets(p *Program, r *Report) {
 		for _, e := range node.In {
 			c := e.Site.Common()
 			o := p.origins(c.Args[0])
-			if !allContain(o, "Context.ref<-") || anyContains(o, "parent") {
+			if !allContain(o, lc.pat(lc.RefF)) || anyContains(o, lc.pat(lc.ParentF)) {
 				okChild = false
 			}
 		}
@@ -374,7 +390,7 @@ func c08Recipients(p *Program, r *Report) {
 			good := len(o) > 0
 			for _, ch := range o {
 				isTarget := strings.HasPrefix(ch, "elem<-") && (strings.Contains(ch, "param:targets") || strings.Contains(ch, "."+s.Targets.Name()+"<-") || strings.Contains(ch, "#0<-call:") && strings.Contains(ch, "Supervise"))
-				isParent := strings.HasPrefix(ch, "field:Context.parent<-")
+				isParent := strings.HasPrefix(ch, "field:"+p.lifecycle().pat(p.lifecycle().ParentF))
 				if !isTarget && !isParent {
 					good = false
 				}
@@ -429,7 +445,7 @@ func c08Dispatch(p *Program, r *Report) {
 		}
 	}
 	kills := nodesWhere(g, func(in ssa.Instruction) bool { c := callOf(in); return c != nil && c.StaticCallee() == kill })
-	bcast := nodesWhere(g, func(in ssa.Instruction) bool { c := callOf(in); return c != nil && c.StaticCallee() == s.Broadcast })
+	bcast, _ := p.eventNodes(g, func(in ssa.Instruction) bool { c := callOf(in); return c != nil && c.StaticCallee() == s.Broadcast })
 	rT, _ := decisionEdges(g, "IsRestart")
 	sT, _ := decisionEdges(g, "IsStop")
 	uT, _ := decisionEdges(g, "IsResume")
@@ -477,7 +493,7 @@ func c08Dispatch(p *Program, r *Report) {
 			if b, isC := constBool(ts.System); !isC || !b {
 				ok = false
 			}
-			if !allContain(p.origins(ts.Recipient), "field:Context.parent<-") {
+			if !allContain(p.origins(ts.Recipient), "field:"+lc.pat(lc.ParentF)) {
 				ok = false
 			}
 			// the new context is linked to the current one
@@ -524,7 +540,7 @@ func c08Exhaustive(p *Program, r *Report) {
 	g := p.applyGraph(s, lc)
 	defer p.withGraph(g)()
 	kill := p.ctxMethod(lc, "Kill")
-	eff := nodesWhere(g, func(in ssa.Instruction) bool {
+	eff, _ := p.eventNodes(g, func(in ssa.Instruction) bool {
 		c := callOf(in)
 		return c != nil && (c.StaticCallee() == kill || c.StaticCallee() == s.Broadcast)
 	})
@@ -565,7 +581,7 @@ func c08FailureEntry(p *Program, r *Report) {
 		if b, isC := constBool(ts.System); !isC || !b {
 			ok = false
 		}
-		if !allContain(p.origins(ts.Recipient), "field:Context.parent<-") {
+		if !allContain(p.origins(ts.Recipient), "field:"+lc.pat(lc.ParentF)) {
 			ok = false
 		}
 		c, isCall := strip(ts.Message).(*ssa.Call)
@@ -801,7 +817,7 @@ func c09Broadcast(p *Program, r *Report) {
 	// (b) in apply-decision
 	g := p.applyGraph(s, lc)
 	defer p.withGraph(g)()
-	bcast := nodesWhere(g, func(in ssa.Instruction) bool {
+	bcast, _ := p.eventNodes(g, func(in ssa.Instruction) bool {
 		c := callOf(in)
 		if c == nil || c.StaticCallee() != s.Broadcast {
 			return false
@@ -1039,7 +1055,7 @@ func c09Zombie(p *Program, r *Report) {
 		if recv == nil || len(args) == 0 {
 			return false
 		}
-		return anyContains(p.origins(recv), "OnKilled.Ref<-") && allContain(p.origins(args[len(args)-1]), "Context.ref<-")
+		return anyContains(p.origins(recv), "OnKilled.Ref<-") && allContain(p.origins(args[len(args)-1]), lc.pat(lc.RefF))
 	})
 	okD := len(ozT) > 0 && len(clean) > 0
 	for e := range ozT {
